@@ -1,7 +1,7 @@
 (* C09 — everything that creates a polynomial yields canonical, CRT-consistent residues.  Statements only. *)
 From Coq Require Import ZArith List.
 From NTT Require Import Small Samplers SamplersExec Setters HwtStore.
-From NTT Require GenSamplerEq GenBoundedEq BoundedSpec.
+From NTT Require GenSamplerEq GenBoundedEq BoundedSpec GaussSetSpec GenGaussSetEq.
 From NTT.gen Require GenLoop.
 Local Open Scope Z_scope.
 
@@ -88,3 +88,22 @@ Theorem C09_source_set_bounded_throws : forall n m P tape data0 B A fuel, Z.of_n
   GenLoop.gen_set_bounded_u32 fuel n data0 B A (Z.of_nat m) P tape = None /\ GenLoop.gen_set_bounded_u64 fuel n data0 B A (Z.of_nat m) P tape = None.
 Proof. exact GenBoundedEq.source_set_bounded_throws. Qed.
 Print Assumptions C09_source_set_bounded_throws.
+
+(* poly::set(gaussian<in_class, T, depth> const&) of the source (all three limb types; FastGaussianNoise::getNoise is an oracle, the noise
+   vector it writes): the copy into the signed local array, the in-place amplification `rnd[i] *= amplifier` in the signed limb type
+   (through uint64_t), the sign test and the row-wise stores `_data[degree*cm+i] = P[cm] + rnd[i]` / `= rnd[i]` never leave their arrays,
+   never overflow a signed type (16-bit limbs: the promoted int sum) and write exactly SamplersExec.set_gauss, the model of
+   C09_gaussian_consistent. *)
+Theorem C09_source_set_gauss : forall n m P noise data0 A, (m <= length P)%nat -> (n <= length noise)%nat ->
+  length data0 = (m * n)%nat -> Z.of_nat (m * n) < 2 ^ 61 -> (0 < n)%nat -> Z.of_nat n < 2 ^ 61 ->
+  (List.Forall (fun p => 0 <= p < 2 ^ 16) (List.firstn m P) -> List.Forall (fun x => 0 <= x < 2 ^ 16) noise ->
+     exists rnd, GenLoop.gen_set_gauss_u16 (Z.of_nat n) data0 A (Z.of_nat m) P noise = Some (rnd, set_gauss 16 (List.firstn m P) A (List.firstn n noise))) /\
+  (List.Forall (fun p => 0 <= p < 2 ^ 32) (List.firstn m P) -> List.Forall (fun x => 0 <= x < 2 ^ 32) noise ->
+     exists rnd, GenLoop.gen_set_gauss_u32 (Z.of_nat n) data0 A (Z.of_nat m) P noise = Some (rnd, set_gauss 32 (List.firstn m P) A (List.firstn n noise))) /\
+  (List.Forall (fun p => 0 <= p < 2 ^ 64) (List.firstn m P) -> List.Forall (fun x => 0 <= x < 2 ^ 64) noise ->
+     exists rnd, GenLoop.gen_set_gauss_u64 (Z.of_nat n) data0 A (Z.of_nat m) P noise = Some (rnd, set_gauss 64 (List.firstn m P) A (List.firstn n noise))).
+Proof.
+  exact (fun n m P noise data0 A HPl Hnl Hd Hs Hn Hn61 => conj (GenGaussSetEq.source_set_gauss_u16 n m P noise data0 A HPl Hnl Hd Hs Hn Hn61)
+    (conj (GenGaussSetEq.source_set_gauss_u32 n m P noise data0 A HPl Hnl Hd Hs Hn Hn61) (GenGaussSetEq.source_set_gauss_u64 n m P noise data0 A HPl Hnl Hd Hs Hn Hn61))).
+Qed.
+Print Assumptions C09_source_set_gauss.
